@@ -12,7 +12,9 @@ EXPLANATION = (
     "the cancel-or-append shape (so the log holds at most one entry per quad and replay order is irrelevant), "
     "no-op guards precede logging, tags logged by add/remove are dispatched by rollback to the inverse wrapped "
     "operation with the same quad layout, commit/rollback clear the log on every normal exit, wildcard removes "
-    "log concrete quads, and no other method mutates the wrapped store. Does not decide two-wrapper schedules."
+    "log concrete quads, and no other method mutates the wrapped store; the context component of a log key collapses "
+    "for a wrapped store that is not context aware, no graph is built from an identifier that may be None, and graphs "
+    "obtained from the wrapped store are re-bound to the wrapper before they are handed out. Does not decide two-wrapper schedules."
 )
 
 MUTATORS = {"add", "addN", "remove", "add_graph", "remove_graph", "update", "destroy", "create", "gc"}
@@ -528,3 +530,300 @@ def run(repo: Repo, rep: Report) -> None:  # noqa: F811
         ok = ctx in names_
         rep.ob("C18.j-guards-and-branch-tests-see-the-context", mod, "AuditableStore.remove", n.test, ok,
                "the context counts as a wildcard position" if ok else "a fully specified triple removed with context None takes the single-quad branch: one undo entry with context None instead of one per graph", node=n)
+
+
+# ---------------------------------------------------------------------------------------------------------------------
+# third layer: the identity of a logged quad (k), graphs made from logged identifiers (l), graphs handed out (m)
+
+import re as _re
+
+
+def _self_attr(n: ast.AST, attr: str | None = None) -> bool:
+    return isinstance(n, ast.Attribute) and isinstance(n.value, ast.Name) and n.value.id == "self" and (attr is None or n.attr == attr)
+
+
+def _defs_of(fn: ast.AST, name: str) -> list[ast.expr]:
+    """values assigned to the local `name` anywhere in fn (plain / annotated assignments)."""
+    out = []
+    for n in own_nodes(fn):
+        if isinstance(n, ast.Assign) and any(isinstance(t, ast.Name) and t.id == name for t in n.targets):
+            out.append(n.value)
+        elif isinstance(n, ast.AnnAssign) and isinstance(n.target, ast.Name) and n.target.id == name and n.value is not None:
+            out.append(n.value)
+    return out
+
+
+def _loop_binding(mod, fn: ast.AST, at: ast.AST, name: str) -> ast.For | None:
+    """the enclosing for-loop of `at` whose target binds `name`."""
+    for p in mod.parents(at):
+        if isinstance(p, ast.For) and any(isinstance(x, ast.Name) and x.id == name for x in ast.walk(p.target)):
+            return p
+        if p is fn:
+            break
+    return None
+
+
+_run_base2 = run
+
+
+def run(repo: Repo, rep: Report) -> None:  # noqa: F811
+    _run_base2(repo, rep)
+    mod = repo.mod("rdflib.plugins.stores.auditable")
+    CLS = "AuditableStore"
+    methods = mod.methods(CLS)
+    log = rep.info["undo_log_attribute"]
+    wrapped = rep.info["wrapped_store_attribute"]
+    init = methods["__init__"]
+    store_param = init.args.args[1].arg
+    typed = repo.typed
+    gcls = set(typed.subclasses("rdflib.graph.Graph")) | {"rdflib.graph.Graph"}
+    if len(gcls) < 3:
+        raise AnalysisError("class hierarchy of rdflib.graph.Graph not found in the typed program")
+
+    # ------------------------------------------------------------------ (k)
+    # The log is a SET of (quad, undo-tag) keys (C18.b: cancel-or-append, replay order irrelevant).  That is only sound when two keys are equal exactly
+    # when they denote the same stored quad of the WRAPPED store.  A store that is not context aware keeps one set of triples whatever graph an
+    # operation comes through, so there the context component of the key has to be one constant.
+    rep.rule("C18.k-log-key-is-the-wrapped-stores-quad",
+             "the context component of every undo-log key written by add/remove is either enumerated from the wrapped store itself, or derived by a definition that "
+             "consults the wrapped store's context_aware flag and has a None arm (one key per triple when the store keeps one set of triples); otherwise, over a store "
+             "that is not context aware, g1.add(t); g2.remove(t) through two graphs leaves the entries (t,g1,'remove') and (t,g2,'add') which do not cancel, and "
+             "rollback replays them into a t that was never there", floor=3)
+
+    def flag_is_wrapped_stores(e: ast.AST) -> bool:
+        """e reads `context_aware` of the wrapped store: self.<wrapped>.context_aware, or self.context_aware which __init__ copies from the wrapped store."""
+        for a in ast.walk(e):
+            if isinstance(a, ast.Attribute) and a.attr == "context_aware":
+                if _self_attr(a.value, wrapped):
+                    return True
+                if _self_attr(a):
+                    for n in own_nodes(init):
+                        if isinstance(n, ast.Assign) and any(_self_attr(t, "context_aware") for t in n.targets):
+                            v = n.value
+                            if isinstance(v, ast.Attribute) and v.attr == "context_aware" and (
+                                    (isinstance(v.value, ast.Name) and v.value.id == store_param) or _self_attr(v.value, wrapped)):
+                                return True
+        return False
+
+    def has_none_arm(e: ast.AST) -> bool:
+        return any(isinstance(x, ast.IfExp) and any(isinstance(arm, ast.Constant) and arm.value is None for arm in (x.body, x.orelse)) for x in ast.walk(e)) \
+            or (isinstance(e, ast.Constant) and e.value is None)
+
+    # a constructor that refuses stores that are not context aware discharges the obligation as well
+    ctor_refuses = False
+    for n in own_nodes(init):
+        if isinstance(n, ast.If) and any(isinstance(x, ast.Attribute) and x.attr == "context_aware" for x in ast.walk(n.test)) \
+                and any(isinstance(s, ast.Raise) for s in n.body + n.orelse):
+            ctor_refuses = True
+        if isinstance(n, ast.Assert) and any(isinstance(x, ast.Attribute) and x.attr == "context_aware" for x in ast.walk(n.test)):
+            ctor_refuses = True
+    for mname in ("add", "remove"):
+        f = methods[mname]
+        seen_keys: set[str] = set()
+        for c in own_nodes(f):
+            if not (_is_log_call(c, log) and c.args and isinstance(c.args[0], ast.Tuple) and len(c.args[0].elts) == 5):
+                continue
+            comp = c.args[0].elts[3]
+            if norm(comp) in seen_keys:
+                continue
+            seen_keys.add(norm(comp))
+            ok, why = False, ""
+            base = comp
+            while isinstance(base, ast.Attribute):
+                base = base.value
+            lp = _loop_binding(mod, f, c, base.id) if isinstance(base, ast.Name) else None
+            if lp is not None and any(_self_attr(x, wrapped) for x in ast.walk(lp.iter)):
+                ok, why = True, "the context the wrapped store itself reports for the quad (%s)" % norm(lp.iter)[:60]
+            elif ctor_refuses:
+                ok, why = True, "__init__ refuses a store that is not context aware"
+            else:
+                dvals = [comp] + (_defs_of(f, comp.id) if isinstance(comp, ast.Name) else [])
+                # the tests a definition sits under count as consulted by it (`if ... and self.context_aware: key = ctx.identifier`)
+                tests = [p.test for v in dvals[1:] for p in mod.parents(v) if isinstance(p, ast.If)]
+                reads = any(flag_is_wrapped_stores(v) for v in dvals + tests)
+                none_arm = any(has_none_arm(v) for v in dvals)
+                ok = reads and none_arm
+                why = "collapses to None when the wrapped store is not context aware" if ok else (
+                    "the key's context component %s is the identifier of whatever graph the call came through, whether or not the wrapped store distinguishes graphs: "
+                    "over a store with context_aware=False an add through one graph and a remove of the same triple through another leave two contradictory undo entries" % norm(comp))
+            rep.ob("C18.k-log-key-is-the-wrapped-stores-quad", mod, "%s.%s" % (CLS, mname), "context component %s of the log key" % norm(comp), ok, why, node=c)
+
+    # ------------------------------------------------------------------ (l)
+    # Graph(store, None) is not `no context`: Graph.__init__ mints a fresh blank-node name for it.  add/remove write None into the log (operation without a context,
+    # store that is not context aware), so nothing in this class may build a graph from an identifier that can be None.  mypy's narrowing decides `can be None`
+    # (any guard form: ternary, if, early continue); an identifier mypy cannot type needs a syntactic `is not None` guard.
+    rep.rule("C18.l-no-graph-from-a-none-identifier",
+             "every construction of a graph with an explicit identifier in AuditableStore (Graph(store, id), ctx.__class__(store, id)) gets an identifier that cannot be "
+             "None at that point; Graph(store, None) is a graph with a freshly minted blank-node name, which matches nothing: st = AuditableStore(Memory()); "
+             "st.add(t, None) logs (t, None, 'remove'), and a rollback() that replays it as remove(t, Graph(store, None)) leaves t in the store "
+             "(every entry of a store that is not context aware is logged with context None as well)", floor=6)
+
+    def is_graph_ctor(c: ast.Call) -> bool:
+        fn_ = c.func
+        if isinstance(fn_, ast.Name):
+            return typed.ref(mod.name, fn_) in gcls or fn_.id in {g.rsplit(".", 1)[-1] for g in gcls}
+        if isinstance(fn_, ast.Attribute) and fn_.attr == "__class__":
+            tf = typed.type_of(mod.name, c)
+            return tf is None or tf.any or bool(set(tf.items) & gcls)
+        return False
+
+    def syntactic_guard(call: ast.AST, e: ast.expr) -> bool:
+        want = norm(e)
+
+        def conj(t: ast.expr, positive: bool) -> bool:
+            if isinstance(t, ast.BoolOp) and isinstance(t.op, ast.And) and positive:
+                return any(conj(v, True) for v in t.values)
+            if isinstance(t, ast.UnaryOp) and isinstance(t.op, ast.Not):
+                return conj(t.operand, not positive)
+            if isinstance(t, ast.Compare) and len(t.ops) == 1 and isinstance(t.comparators[0], ast.Constant) and t.comparators[0].value is None and norm(t.left) == want:
+                return isinstance(t.ops[0], ast.IsNot if positive else ast.Is)
+            return False
+
+        child = call
+        for p in mod.parents(call):
+            if isinstance(p, (ast.If, ast.IfExp)):
+                body = p.body if isinstance(p.body, list) else [p.body]
+                orelse = p.orelse if isinstance(p.orelse, list) else [p.orelse]
+                if any(child is s for s in body) and conj(p.test, True):
+                    return True
+                if any(child is s for s in orelse) and conj(p.test, False):
+                    return True
+            if isinstance(p, (ast.FunctionDef, ast.AsyncFunctionDef, ast.Lambda)):
+                break
+            child = p
+        return False
+
+    for mname, f in methods.items():
+        for c in own_nodes(f, include_nested=True):
+            if not (isinstance(c, ast.Call) and is_graph_ctor(c)):
+                continue
+            ident = c.args[1] if len(c.args) > 1 else next((k.value for k in c.keywords if k.arg == "identifier"), None)
+            if ident is None or (isinstance(ident, ast.Constant) and ident.value is not None):
+                continue  # the all-contexts / default view over a store: no identifier involved
+            bad = []
+            for e in [ident] + [x for x in ast.walk(ident) if isinstance(x, ast.Name) and x is not ident]:
+                tf = typed.type_of(mod.name, e)
+                if isinstance(e, ast.Constant):
+                    if e.value is None:
+                        bad.append("None")
+                    continue
+                if tf is not None and not tf.any and not tf.optional:
+                    continue
+                if syntactic_guard(c, e):
+                    continue
+                bad.append("%s : %s" % (norm(e), tf.text if tf is not None else "untyped"))
+            rep.ob("C18.l-no-graph-from-a-none-identifier", mod, "%s.%s" % (CLS, mname), c, not bad,
+                   "identifier cannot be None here" if not bad else
+                   "%s may be None where the graph is constructed: the result is a graph named by a fresh blank node, not `no context` - an undo entry logged "
+                   "with context None is replayed against a graph that matches nothing" % "; ".join(bad), node=c)
+
+    # ------------------------------------------------------------------ (m)
+    # add/remove/triples/__len__ translate the graphs they are GIVEN to graphs over the wrapped store.  The graphs the class HANDS OUT must make the inverse trip:
+    # a graph obtained from the wrapped store is bound to the wrapped store, whatever is done through it is neither logged nor undone.
+    rep.rule("C18.m-graphs-handed-out-are-bound-to-the-wrapper",
+             "every graph-typed value that a method of AuditableStore obtains from the wrapped store and yields/returns (contexts(), the context column of triples()) "
+             "passes through a construction <cls>(self, identifier) first; a graph bound to the wrapped store bypasses the undo log: "
+             "for g in ConjunctiveGraph(AuditableStore(m)).contexts(): g.add(t) - and SPARQL CLEAR/DROP, get_graph(), quads() graphs - is not undone by rollback()", floor=2)
+    store_mod = repo.mod("rdflib.store")
+    graph_txt = _re.compile(r"rdflib\.graph\.(\w+)")
+
+    def graphish(e: ast.AST) -> bool | None:
+        tf = typed.type_of(mod.name, e)
+        if tf is None:
+            return None
+        if tf.any and not tf.items:
+            return None
+        return any("rdflib.graph." + m_ in gcls for m_ in graph_txt.findall(tf.text))
+
+    def store_method_hands_out_graphs(name: str) -> bool:
+        if not store_mod.has("Store." + name):
+            return False
+        r = store_mod.func("Store." + name).returns
+        return r is not None and bool(_re.search(r"_ContextType|Graph", norm(r)))
+
+    def builds_over_self(c: ast.AST) -> bool:
+        if not (isinstance(c, ast.Call) and is_graph_ctor(c)):
+            return False
+        st = c.args[0] if c.args else next((k.value for k in c.keywords if k.arg == "store"), None)
+        return isinstance(st, ast.Name) and st.id == "self"
+
+    rebinders = {mn for mn, f in methods.items()
+                 if any(isinstance(r, ast.Return) and r.value is not None and any(builds_over_self(x) for x in ast.walk(r.value)) for r in own_nodes(f))}
+
+    def is_rebind(c: ast.AST) -> bool:
+        if isinstance(c, ast.Call) and isinstance(c.func, ast.Name) and c.func.id == "map" and c.args and _self_attr(c.args[0]) and c.args[0].attr in rebinders:
+            return True  # map(self.<rebinder>, graphs)
+        return builds_over_self(c) or (isinstance(c, ast.Call) and _self_attr(c.func) and c.func.attr in rebinders)
+
+    for mname, f in methods.items():
+        if mname in rebinders:
+            continue
+        # names bound (directly or through loops / comprehensions / assignments) from a call on the wrapped store
+        tainted: set[str] = set()
+
+        def dirty(e: ast.AST) -> bool:
+            return any(_wrapped_call(x, wrapped) is not None or (isinstance(x, ast.Name) and x.id in tainted) for x in ast.walk(e))
+
+        changed = True
+        while changed:
+            changed = False
+            for n in own_nodes(f, include_nested=True):
+                tg: list[ast.AST] = []
+                if isinstance(n, (ast.For, ast.comprehension)) and dirty(n.iter):
+                    tg = [n.target]
+                elif isinstance(n, ast.Assign) and dirty(n.value):
+                    tg = list(n.targets)
+                elif isinstance(n, (ast.AnnAssign, ast.NamedExpr)) and n.value is not None and dirty(n.value):
+                    tg = [n.target]
+                for t in tg:
+                    for x in ast.walk(t):
+                        if isinstance(x, ast.Name) and x.id not in tainted and x.id != "self":
+                            tainted.add(x.id)
+                            changed = True
+
+        def leaks(e: ast.AST) -> list[str]:
+            if is_rebind(e):
+                return []
+            if isinstance(e, ast.Call):
+                w = _wrapped_call(e, wrapped)
+                if w is not None:
+                    return [norm(e)[:70]] if store_method_hands_out_graphs(w) or graphish(e) else []
+                out: list[str] = []
+                for a in list(e.args) + [k.value for k in e.keywords]:
+                    out += leaks(a)
+                return out
+            if isinstance(e, (ast.GeneratorExp, ast.ListComp, ast.SetComp)):
+                return leaks(e.elt)
+            if isinstance(e, ast.DictComp):
+                return leaks(e.key) + leaks(e.value)
+            if isinstance(e, (ast.Name, ast.Attribute, ast.Subscript)):
+                if not dirty(e):
+                    return []
+                g_ = graphish(e)
+                if g_ is None:
+                    return ["%s (untyped: cannot be shown not to be a graph of the wrapped store)" % norm(e)]
+                return [norm(e)] if g_ else []
+            out = []
+            for ch in ast.iter_child_nodes(e):
+                if isinstance(ch, ast.expr):
+                    out += leaks(ch)
+            return out
+
+        def mentions_graph_of_wrapped(e: ast.AST) -> bool:
+            for x in ast.walk(e):
+                if isinstance(x, ast.Name) and x.id in tainted and graphish(x) is not False:
+                    return True
+                w = _wrapped_call(x, wrapped)
+                if w is not None and store_method_hands_out_graphs(w) and x is e:
+                    return True
+            return False
+
+        for n in own_nodes(f, include_nested=True):
+            if isinstance(n, (ast.Yield, ast.YieldFrom, ast.Return)) and n.value is not None:
+                lk = leaks(n.value)
+                if not lk and not mentions_graph_of_wrapped(n.value):
+                    continue
+                rep.ob("C18.m-graphs-handed-out-are-bound-to-the-wrapper", mod, "%s.%s" % (CLS, mname), n, not lk,
+                       "graphs of the wrapped store are re-bound to this store before they leave" if not lk else
+                       "%s hands out %s as the wrapped store made it: a graph bound to self.%s, so add/remove through it (ConjunctiveGraph.contexts()/get_graph()/quads(), "
+                       "SPARQL CLEAR/DROP) are not logged and rollback() does not undo them" % (mname, ", ".join(lk), wrapped), node=n)
